@@ -97,14 +97,18 @@ pub fn programs(tier: Tier) -> ProgramSet {
         // get_serializations do not use it
         let mut pf = spec.clone();
         pf.prefix = Some("p/".into());
+        // .. and every literal of this twin (the style string included) is written as a raw string
+        pf.syntax.push("raw-literals".into());
         let source = render_b(&pf);
-        out.push(Program { idx: 0, label: format!("B-prefix: dictionary under {:?} with prefix = \"p/\"", st), k: 2, spec: pf, aux: json!({"layer": "B"}), source });
+        out.push(Program { idx: 0, label: format!("B-prefix: dictionary under {:?} with prefix = \"p/\", raw string literals", st), k: 2, spec: pf, aux: json!({"layer": "B"}), source });
         // the same dictionary parsed case-insensitively (enum-level flag, one variant opting out)
         let mut ci = spec.clone();
         ci.aci = true;
         ci.variants[3].aci = Some(Aci::False);
+        // .. and every literal of this twin (the style string included) is written with escapes
+        ci.syntax.push("escaped-literals".into());
         let source = render_b(&ci);
-        out.push(Program { idx: 0, label: format!("B-ci: dictionary under {:?} with ascii_case_insensitive", st), k: 2, spec: ci, aux: json!({"layer": "B"}), source });
+        out.push(Program { idx: 0, label: format!("B-ci: dictionary under {:?} with ascii_case_insensitive, escaped literals", st), k: 2, spec: ci, aux: json!({"layer": "B"}), source });
     }
     ProgramSet {
         programs: finish(out),
